@@ -51,6 +51,9 @@ def _geoms(tier):
         dict(cb=16, ver=3, W=3, at="straddle", alpha="V3", layout="l1_first", cut=512, hl=112, tbase=GB4, dbase=1 << 40,
              comp_high=True),
         dict(cb=16, ver=3, W=3, at="0", alpha="V3", layout="l1_first", cut=0, hl=112, datafile=True, only=[B.U, B.Z, B.N]),
+        # external data file without the (optional) data-file-name extension, over a backing file
+        dict(cb=12, ver=3, W=3, at="0", alpha="V3", layout="l1_first", cut=0, hl=112, datafile="anon", backing="equal",
+             only=[B.U, B.Z, B.N]),
         dict(cb=12, ver=3, W=3, at="0", alpha="V3", layout="l1_first", cut=7, hl=112, backing="equal"),
         dict(cb=9, ver=3, W=3, at="absent", alpha="V3", layout="l1_first", cut=0, hl=112, backing="empty",
              tbase=1 << 55, dbase=GB4, only=[B.U, B.Z, B.N, B.A]),
@@ -250,7 +253,7 @@ def _case_std(case, ctx):
             bfmt = "raw"
     img, dimg = B.build(states, slots, cb, g["ver"], size, at, total, layout=g["layout"], table_base=g.get("tbase"),
                         data_base=g.get("dbase"), backing_name=bname, backing_format=bfmt, header_length=g.get("hl", 112),
-                        data_file=bool(g.get("datafile")), comp=comp, extensions=exts, comp_pack=bool(g.get("pack")))
+                        data_file=g.get("datafile") or False, comp=comp, extensions=exts, comp_pack=bool(g.get("pack")))
     parent = RawDisk.__new__(RawDisk) if False else None
     backing_fh = None
     if bn is not None:
